@@ -146,6 +146,8 @@ enum Label {
     R(Fault),
     X,
     K,
+    /// crash while an append is rotating: a new empty tail segment is left behind
+    KR,
 }
 
 fn fch(f: Fault) -> &'static str {
@@ -163,6 +165,7 @@ fn show_sched(s: &[Label]) -> String {
             Label::R(f) => format!("R{}", fch(*f)),
             Label::X => "X".to_string(),
             Label::K => "K".to_string(),
+            Label::KR => "Kr".to_string(),
         })
         .collect::<Vec<_>>()
         .join(" ")
@@ -170,6 +173,9 @@ fn show_sched(s: &[Label]) -> String {
 fn parse_sched(s: &str) -> Vec<Label> {
     s.split_whitespace()
         .map(|t| {
+            if t == "Kr" {
+                return Label::KR;
+            }
             let (body, f) = if t.len() > 1 && t.ends_with('b') {
                 (&t[..t.len() - 1], Fault::B)
             } else if t.len() > 1 && t.ends_with('a') {
@@ -263,7 +269,7 @@ fn model_head(scn: &Scenario, p: &Prepared) -> String {
 
 // ------------------------------------------------------- durable state view ----
 /// (segments in id order, each the list of complete entries (seq, payload)), flushed mark
-fn read_wal(dir: &std::path::Path) -> (Vec<Vec<(u64, Vec<u8>)>>, u64) {
+fn read_wal_ids(dir: &std::path::Path) -> (Vec<(u64, Vec<(u64, Vec<u8>)>)>, u64) {
     let mut segs: Vec<(u64, std::path::PathBuf)> = Vec::new();
     if let Ok(rd) = std::fs::read_dir(dir) {
         for e in rd.flatten() {
@@ -277,7 +283,7 @@ fn read_wal(dir: &std::path::Path) -> (Vec<Vec<(u64, Vec<u8>)>>, u64) {
     }
     segs.sort();
     let mut out = Vec::new();
-    for (_, p) in segs {
+    for (sid, p) in segs {
         let bytes = std::fs::read(&p).unwrap_or_default();
         let mut es = Vec::new();
         let mut pos = 0usize;
@@ -294,13 +300,18 @@ fn read_wal(dir: &std::path::Path) -> (Vec<Vec<(u64, Vec<u8>)>>, u64) {
             es.push((seq, bytes[pos + WAL_HEADER_LEN..pos + WAL_HEADER_LEN + len].to_vec()));
             pos += WAL_HEADER_LEN + len;
         }
-        out.push(es);
+        out.push((sid, es));
     }
     let flushed = match std::fs::read(dir.join("flushed_seq")) {
         Ok(b) if b.len() == 8 => u64::from_le_bytes(b.try_into().unwrap()),
         _ => 0,
     };
     (out, flushed)
+}
+
+fn read_wal(dir: &std::path::Path) -> (Vec<Vec<(u64, Vec<u8>)>>, u64) {
+    let (segs, fl) = read_wal_ids(dir);
+    (segs.into_iter().map(|s| s.1).collect(), fl)
 }
 
 fn payload_rows(payload: &[u8], interner: &mut Interner) -> Vec<u64> {
@@ -321,6 +332,8 @@ struct ImplOut {
     line_tail: String,
     /// first step index at which an acknowledged row was neither in the catalog nor replayable
     first_violation: Option<(usize, String)>,
+    /// first step at which the WAL handed out a sequence number that is not above every earlier one
+    seq_regress: Option<(usize, String)>,
     stats: Vec<(&'static str, u64)>,
 }
 
@@ -395,6 +408,9 @@ async fn run_impl_async(scn: &Scenario, prep: &mut Prepared, plan: Plan) -> Impl
     let mut sched: Vec<Label> = Vec::new();
     let mut steps: Vec<String> = Vec::new();
     let mut first_violation: Option<(usize, String)> = None;
+    let mut seq_regress: Option<(usize, String)> = None;
+    let mut seen_pos: std::collections::HashSet<(u64, usize)> = std::collections::HashSet::new();
+    let mut max_seq_ever = 0u64;
     let mut n_crash = 0u64;
     let mut n_fault = 0u64;
     let mut n_overlap = 0u64;
@@ -427,7 +443,7 @@ async fn run_impl_async(scn: &Scenario, prep: &mut Prepared, plan: Plan) -> Impl
                 Mode::Down => Label::R(Fault::N),
                 Mode::Recovering(_) => {
                     if n_crash < max_crashes && rng.chance(1, 12) {
-                        Label::K
+                        if rng.chance(1, 3) { Label::KR } else { Label::K }
                     } else {
                         Label::R(pick_fault(rng, &ctl, rid, &mut n_fault, max_faults))
                     }
@@ -442,7 +458,7 @@ async fn run_impl_async(scn: &Scenario, prep: &mut Prepared, plan: Plan) -> Impl
                             break;
                         }
                     } else if n_crash < max_crashes && rng.chance(1, 25) {
-                        Label::K
+                        if rng.chance(1, 3) { Label::KR } else { Label::K }
                     } else if timer_parked && (live.is_empty() || rng.chance(1, 3)) {
                         Label::T(pick_fault(rng, &ctl, k, &mut n_fault, max_faults))
                     } else if !cancelled && !live.is_empty() && rng.chance(1, 40) {
@@ -504,7 +520,7 @@ async fn run_impl_async(scn: &Scenario, prep: &mut Prepared, plan: Plan) -> Impl
                 }
                 _ => false,
             },
-            Label::K => match &mode {
+            Label::K | Label::KR => match &mode {
                 Mode::Down => false,
                 _ => {
                     n_crash += 1;
@@ -531,11 +547,19 @@ async fn run_impl_async(scn: &Scenario, prep: &mut Prepared, plan: Plan) -> Impl
                     token = None;
                     cancelled = false;
                     timer_done = false;
-                    let mut sh = shared.lock().unwrap();
-                    for i in 0..k {
-                        if sh.in_progress[i].take().is_some() {
-                            sh.results[i].push('l');
+                    {
+                        let mut sh = shared.lock().unwrap();
+                        for i in 0..k {
+                            if sh.in_progress[i].take().is_some() {
+                                sh.results[i].push('l');
+                            }
                         }
+                    }
+                    if label == Label::KR {
+                        // the dying process had just rotated: a new, empty segment file exists
+                        let (segs, _) = read_wal_ids(wal_dir.path());
+                        let next = segs.iter().map(|s| s.0).max().unwrap_or(0) + 1;
+                        let _ = std::fs::write(wal_dir.path().join(format!("segment-{:06}.wal", next)), b"");
                     }
                     true
                 }
@@ -653,7 +677,24 @@ async fn run_impl_async(scn: &Scenario, prep: &mut Prepared, plan: Plan) -> Impl
         sched.push(label);
 
         // ---- observe: volatile stats (when up), durable state, the property ----
-        let (segs, flushed) = read_wal(wal_dir.path());
+        let (segs_ids, flushed) = read_wal_ids(wal_dir.path());
+        {
+            let before = max_seq_ever;
+            for (sid, es) in &segs_ids {
+                for (idx, (seq, _)) in es.iter().enumerate() {
+                    if seen_pos.insert((*sid, idx)) {
+                        if *seq <= before && seq_regress.is_none() {
+                            seq_regress = Some((
+                                sched.len() - 1,
+                                format!("the WAL handed out sequence number {} although {} had been handed out before (flushed mark on disk {})", seq, before, flushed),
+                            ));
+                        }
+                        max_seq_ever = max_seq_ever.max(*seq);
+                    }
+                }
+            }
+        }
+        let segs: Vec<Vec<(u64, Vec<u8>)>> = segs_ids.into_iter().map(|s| s.1).collect();
         let entries = catalog.list_chunks().await.unwrap_or_default();
         let vol = match &mode {
             Mode::Up(ing) => {
@@ -758,6 +799,7 @@ async fn run_impl_async(scn: &Scenario, prep: &mut Prepared, plan: Plan) -> Impl
         sched,
         line_tail,
         first_violation,
+        seq_regress,
         stats: vec![("crashes", n_crash), ("faults", n_fault), ("overlapped_steps", n_overlap), ("failed_flush_requests", n_flush_fail)],
     }
 }
@@ -856,6 +898,21 @@ fn corpus() -> Vec<(&'static str, Scenario, Vec<Label>)> {
             Scenario { flush_rows: 3, flush_bytes: big, max_bytes: big, max_segment: 64 << 20, writers: vec![vec![b(0, &[1]), b(0, &[]), b(0, &[2, 3])]] },
             parse_sched("W0 W0 W0 W0 K R W0 W0 W0 W0 W0 W0 W0 W0 W0 W0 X"),
         ),
+        // the segment holding the entry AT the mark must survive the flush's truncation: crash while
+        // rotating (empty tail segment), restart, write-less shutdown flush, crash between truncate and
+        // persist, restart, write — with `truncate_before(mark + 1)` the log is empty and seq 1 is re-issued
+        (
+            "truncate-keeps-mark-entry",
+            Scenario { flush_rows: 100, flush_bytes: big, max_bytes: big, max_segment: 1, writers: vec![vec![b(0, &[1]), b(0, &[2])]] },
+            parse_sched("W0 W0 W0 Kr R X T T T T K R W0 W0 W0"),
+        ),
+        // a second writer has logged seq 2 (not stored yet) when writer 0's flush truncates with mark 1:
+        // segment [1] is closed and must still be there right after the truncation
+        (
+            "truncate-bound-visible",
+            Scenario { flush_rows: 2, flush_bytes: big, max_bytes: big, max_segment: 1, writers: vec![vec![b(0, &[1, 2])], vec![b(0, &[3])]] },
+            parse_sched("W0 W0 W0 W1 W0 W0 W0 W0 K R"),
+        ),
         // crash between register and persist, restart, crash during recovery, restart: duplicates, no loss
         (
             "crash-restart-crash",
@@ -881,8 +938,8 @@ fn main() {
         let line = format!("{}|S {}", head, show_sched(&out.sched));
         let m = model.ask(&line);
         let (mtail, class) = split_class(&m);
-        println!("case : {}\nimpl : {}\nmodel: {}\nclass: {}\nviolation: {:?}", line, out.line_tail, mtail, class, out.first_violation);
-        std::process::exit(if out.first_violation.is_none() && (model.is_null() || mtail == out.line_tail) { 0 } else { 1 });
+        println!("case : {}\nimpl : {}\nmodel: {}\nclass: {}\nviolation: {:?}\nsequence regress: {:?}", line, out.line_tail, mtail, class, out.first_violation, out.seq_regress);
+        std::process::exit(if out.first_violation.is_none() && out.seq_regress.is_none() && (model.is_null() || mtail == out.line_tail) { 0 } else { 1 });
     }
 
     let n_random = if args.get("corpus-only").is_some() { 0 } else if args.thorough() { 8000 } else { 300 };
@@ -899,8 +956,24 @@ fn main() {
     let verbose = args.get("verbose").is_some();
     let limit: usize = args.get("limit").and_then(|s| s.parse().ok()).unwrap_or(usize::MAX);
     let t_all = std::time::Instant::now();
+    // bounds: the run always ends well inside the check's timeout and the report is
+    // written after every finding
+    let wall_budget: u64 = args.get("budget-secs").and_then(|s| s.parse().ok()).unwrap_or(if args.thorough() { 4800 } else { 540 });
+    const MAX_DISAGREEMENTS: usize = 10;
+    const MAX_UNCLASSIFIED: u32 = 10;
+    let mut n_disagreements = 0usize;
+    let mut n_unclassified = 0u32;
+    let total_cases = cases.len();
     for (ci, (origin, scn, plan)) in cases.into_iter().enumerate() {
         if ci >= limit {
+            break;
+        }
+        if n_disagreements >= MAX_DISAGREEMENTS || n_unclassified >= MAX_UNCLASSIFIED {
+            report.notes.push(format!("stopped after case {} of {}: {} disagreements, {} unclassified violations", ci, total_cases, n_disagreements, n_unclassified));
+            break;
+        }
+        if t_all.elapsed().as_secs() > wall_budget {
+            report.notes.push(format!("stopped after case {} of {}: wall budget of {} s used up", ci, total_cases, wall_budget));
             break;
         }
         let t0 = std::time::Instant::now();
@@ -928,8 +1001,18 @@ fn main() {
         report.sample(json!({"case": line, "impl": out.line_tail, "model": mtail, "class": class}));
         report.bump(&format!("class.{}", if class.is_empty() { "none" } else { &class }));
         let case_json = |s: &Scenario, l: &[Label]| json!({"scenario": s, "sched": show_sched(l)});
+        let mut dirty = false;
         if differs {
-            let shrunk = ddmin(&out.sched, &mut |cand: &[Label]| {
+            n_disagreements += 1;
+            dirty = true;
+            // shrink to the first differing step, then delta-debug within a budget
+            let first_diff = first_step_diff(&out.line_tail, &mtail).min(out.sched.len().saturating_sub(1));
+            let prefix: Vec<Label> = out.sched[..=first_diff].to_vec();
+            let mut budget = Budget::new(120, 20);
+            let shrunk = ddmin(&prefix, &mut |cand: &[Label]| {
+                if !budget.take() {
+                    return false;
+                }
                 let (h, o) = run_impl(&scn, Plan::Replay(cand.to_vec()));
                 let l = format!("{}|S {}", h, show_sched(&o.sched));
                 let mm = model.ask(&l);
@@ -937,13 +1020,29 @@ fn main() {
             });
             let (h, o) = run_impl(&scn, Plan::Replay(shrunk));
             let sl = format!("{}|S {}", h, show_sched(&o.sched));
-            let sm = model.ask(&sl);
+            let sm = split_class(&model.ask(&sl)).0;
+            let (scase, simpl, smodel) = if sm != o.line_tail { (case_json(&scn, &o.sched), o.line_tail.clone(), sm) } else { (case_json(&scn, &prefix), out.line_tail.clone(), mtail.clone()) };
             report.disagreement(json!({
                 "correspondence": "durable ingest model (Model/IngestDur.v) vs Ingester with WAL over SchedStore + gated LocalMetadataClient",
                 "case": case_json(&scn, &out.sched), "impl": out.line_tail, "model": mtail,
-                "shrunk": case_json(&scn, &o.sched), "shrunk_line": sl, "shrunk_impl": o.line_tail, "shrunk_model": sm,
-                "oracle_failed": out.first_violation.is_some(),
+                "first_differing_step": first_diff,
+                "shrunk": scase, "shrunk_line": sl, "shrunk_impl": simpl, "shrunk_model": smodel,
+                "oracle_failed": out.first_violation.is_some() || out.seq_regress.is_some(),
             }));
+        }
+        if let Some((at, what)) = &out.seq_regress {
+            // never a known class
+            report.bump("seq_regress_runs");
+            n_unclassified += 1;
+            dirty = true;
+            let prefix: Vec<Label> = out.sched[..=*at].to_vec();
+            let mut budget = Budget::new(120, 20);
+            let shrunk = ddmin(&prefix, &mut |cand: &[Label]| budget.take() && run_impl(&scn, Plan::Replay(cand.to_vec())).1.seq_regress.is_some());
+            let (_, o) = run_impl(&scn, Plan::Replay(shrunk));
+            match &o.seq_regress {
+                Some((at2, w)) => report.oracle_violation("", &format!("{} [{}]", w, origin), case_json(&scn, &o.sched[..=*at2])),
+                None => report.oracle_violation("", &format!("{} [{}]", what, origin), case_json(&scn, &prefix)),
+            }
         }
         if let Some((at, what)) = &out.first_violation {
             report.bump("violating_runs");
@@ -956,11 +1055,15 @@ fn main() {
                 "K2" => "failed-flush",
                 _ => "",
             };
+            if pclass.is_empty() {
+                n_unclassified += 1;
+            }
             let seen = shrunk_per_class.entry(pclass.clone()).or_insert(0u32);
             if *seen < 2 || pclass.is_empty() {
                 *seen += 1;
-                // shrink the prefix up to the violating step
-                let shrunk = ddmin(&prefix, &mut |cand: &[Label]| run_impl(&scn, Plan::Replay(cand.to_vec())).1.first_violation.is_some());
+                dirty = true;
+                let mut budget = Budget::new(120, 20);
+                let shrunk = ddmin(&prefix, &mut |cand: &[Label]| budget.take() && run_impl(&scn, Plan::Replay(cand.to_vec())).1.first_violation.is_some());
                 let (h, o) = run_impl(&scn, Plan::Replay(shrunk));
                 match &o.first_violation {
                     Some((at2, w)) => {
@@ -978,9 +1081,26 @@ fn main() {
             }
             report.bump(&format!("violating_class.{}", if pclass.is_empty() { "unclassified" } else { &pclass }));
         }
+        if dirty || ci % 25 == 24 {
+            report.write(&args.out);
+        }
     }
-    report.notes.push(format!("model calls: {}", model.calls));
+    report.notes.push(format!("model calls: {}; wall {} s", model.calls, t_all.elapsed().as_secs()));
     report.write(&args.out);
+}
+
+/// index of the first step whose observation differs between two `steps=a/b/c|...` lines
+fn first_step_diff(a: &str, b: &str) -> usize {
+    let steps = |l: &str| -> Vec<String> {
+        l.split('|').find(|f| f.starts_with("steps=")).map(|f| f[6..].split('/').map(|x| x.to_string()).collect()).unwrap_or_default()
+    };
+    let (x, y) = (steps(a), steps(b));
+    for i in 0..x.len().max(y.len()) {
+        if x.get(i) != y.get(i) {
+            return i;
+        }
+    }
+    x.len().saturating_sub(1)
 }
 
 /// the model's answer carries the classifier verdict in a trailing `|class=..` field
